@@ -158,6 +158,9 @@ func c24stream(c *c24case) []byte {
 		n, _ := strconv.Atoi(c.Gen[5:])
 		return c24frame("verifbig", c24fill(n))
 	}
+	if strings.HasPrefix(c.Gen, "lenb:") {
+		return c24lenbStream(c.Gen) // C24_lenboundary_test.go
+	}
 	b, _ := hex.DecodeString(c.Stream)
 	return b
 }
@@ -185,6 +188,10 @@ func c24gen(f *c24fix, thorough bool, emit c24emit) {
 	if f.Mode == "replay" {
 		c := f.Replay
 		emit(c.Kind, c.Desc, c.Off, c.Shift, c.Gen, func() []byte { return c24stream(c) })
+		return
+	}
+	if f.Mode == "lenb" {
+		c24genLenb(f, thorough, emit) // C24_lenboundary_test.go
 		return
 	}
 	base := f.bytes()
@@ -859,6 +866,9 @@ func TestVerif_C24_Worker(t *testing.T) {
 				c.Parts = f.Replay.Parts
 			}
 			outcome, viols, alloc := c24eval(stream, &c)
+			if strings.HasPrefix(kind, "lenb-") {
+				viols = c24lenbRekey(kind, gen, stream, outcome, viols)
+			}
 			g.Evals++
 			g.Classes[kind+" -> "+outcome]++
 			if alloc > g.MaxAlloc {
@@ -1365,6 +1375,9 @@ func TestVerif_C24(t *testing.T) {
 		"every payload byte set to 10 boundary values (quick) / all 255 other values (thorough); every payload offset overwritten as a u32/u64 count in {0,1,MAX_PAYLOAD_LEN,2^32-1,2^63,2^64-1} " +
 		"or spliced as a var-uint count in {65535,MAX_PAYLOAD_LEN,2^32-1,2^32,2^63,2^64-1}, each followed by the rest of the body and by nothing; every byte <0xfd re-encoded as a non-minimal var-uint; " +
 		"hand-encoded alternative key encodings; per registered command every payload of <=1 (quick) / <=2 (thorough) bytes and all payloads <=3/<=4 bytes over 9 boundary bytes; " +
+		"family lenb: for every variable-length byte/string/list field of every message type whose content is not fixed by a key or signature format (templates listed in coverage.decode.lenb_templates) " +
+		"the field is made exactly L bytes / elements long for every L in {0xfc,0xfd,0xfe,0xff,0x100,0xfffe,0xffff,0x10000,0x10001} (thorough: also 0,1,0x21,0xfb,0x101,0xfffd,0x10002; not above the field's own cap) and its " +
+		"var-uint prefix written in every width of {1,3,5,9} bytes that can hold L: the shortest width is the frame Serialization writes for such a value and must be accepted and re-serialize identically, every longer width must be refused (or re-serialize identically); " +
 		"header families (every magic bit + other networks' magics, command bytes, length -1/+1/MAX/MAX+1/2^31/2^32-1 with stale and recomputed checksum, every checksum bit, full-size and full-size+1 bodies). " +
 		"Oracle per case: no panic, no process death; allocation during ReadMessage <= MAX_PAYLOAD_LEN+1MiB; a stream the reference header rules reject must return an error; " +
 		"an accepted message must re-serialize to the payload and WriteMessage to the frame; a value written by WriteMessage must be accepted. " +
@@ -1424,6 +1437,21 @@ func TestVerif_C24(t *testing.T) {
 			r.Need(have[cmd] > 0, "message type %q is registered in makeEmptyMessage but the C24 harness has no hand-built fixture for it: add one to c24fixtures", cmd)
 		}
 		r.Need(have["verifx"] > 0, "no fixture for the unknown-command fallback")
+		// family lenb (C24_lenboundary_test.go): fields whose length / element count sits on a var-uint width boundary
+		var lenb []*c24fix
+		p = vh.Catch(func() {
+			lenb = c24lenbFixes()
+			for _, t := range c24lenbTable() {
+				t.payload(3, 1) // every template must build (marker found exactly once in the real serialization)
+			}
+		})
+		r.Need(p == "" && len(lenb) >= 20, "building the lenb templates failed (%d built): %s", len(lenb), p)
+		var lnames []string
+		for _, f := range lenb {
+			lnames = append(lnames, f.Name)
+		}
+		r.Set("lenb_templates", lnames)
+		fixes = append(fixes, lenb...)
 	}
 	if only := os.Getenv("VERIF_C24_ONLY"); only != "" { // debugging aid: never a full run
 		var keep []*c24fix
